@@ -9,7 +9,7 @@
    wlog s = (waiter, payload visible at the release), sublog s = successful subscriptions,
    elog s = access log of the awaiter nodes (ENext/EClear = the walker reads/clears _next, EResume = resume(),
    EFree = the awaiter's storage is gone, EFrame r = async frame destroyed while ready = r). *)
-From Cocls Require Import Base BaseProofs CellDefs CellProofs Cell2Proofs AwDefs AwProofs.
+From Cocls Require Import Base BaseProofs CellDefs CellProofs Cell2Proofs AwDefs AwProofs PromDefs PromProofs.
 Local Open Scope Z_scope.
 
 (* at most once: a waiter occurs at most once in slot ∪ walk list ∪ suspend point ∪ released; its release count is <= 1
@@ -153,6 +153,24 @@ Example c02_reuse_nonvacuous :
   = [[1]; [0;0;1;10]; [1]; [0;0;1;20]; [1]; [1;0;1;30]; [0;2;1;5]; [0;2;1;6]; [1]; [1;2;1;7];
      [0]; [0]; [0]; [0]; [0]; [1;1;10]; [1;1;20]; [1;1;30]; [10;0;0]].
 Proof. vm_compute. reflexivity. Qed.
+
+(* ---------- waiters of a future whose promise object is overwritten / destroyed / dropped (PromDefs.v) ---------- *)
+(* move assignment onto a live promise releases the waiters parked on the overwritten future AT the assignment: every one
+   of them, with the (no-value) result, callbacks in chain order and then the coroutines *)
+Theorem c02_assign_releases_waiters : forall isvoid s p q cp oq cl l,
+  nth_error (proms s) p = Some (Some (Some cp)) -> nth_error (proms s) q = Some (Some oq) -> p <> q ->
+  nth_error (cells s) cp = Some cl -> c_slot cl = CChain l ->
+  snd (pstep isvoid s (PAssign p q)) = 0 :: deliver isvoid (c_pay cl) l /\
+  (forall w k, In (w, k) l -> In (Z.of_nat w) (deliver isvoid (c_pay cl) l)).
+Proof. exact assign_releases_waiters. Qed.
+Print Assumptions c02_assign_releases_waiters.
+
+Theorem c02_drop_releases_waiters : forall isvoid s p cp cl l x,
+  nth_error (proms s) p = Some (Some (Some cp)) -> nth_error (cells s) cp = Some cl -> c_slot cl = CChain l ->
+  x = PDestroy p \/ x = PUnwind p \/ x = PDrop p ->
+  exists r, snd (pstep isvoid s x) = r :: deliver isvoid (c_pay cl) l.
+Proof. exact drop_releases_waiters. Qed.
+Print Assumptions c02_drop_releases_waiters.
 
 (* non-vacuity: 4 waiters of different kinds race with an async completion; two subscribe before the exchange,
    one is refused by the CAS, one finds the future ready; the run ends in a terminal state *)
